@@ -1,3 +1,3 @@
 SPECIFICATION Spec
-CONSTANTS Pfx = {"A", "B"} MaxHops = 1 MaxCid = 1 QCap = 100 MaxDepth = 4 LeakDetached = FALSE AnyState = FALSE MaxInst = 3 Lifecycle = TRUE UnloadClears = TRUE CandInit = {TRUE, FALSE} CloseWays = {"closeR", "remove"} ReasonDecides = FALSE ReadyInit = FALSE
+CONSTANTS Pfx = {"A", "B"} MaxHops = 1 MaxCid = 1 QCap = 100 MaxDepth = 4 LeakDetached = FALSE AnyState = FALSE MaxInst = 3 Lifecycle = TRUE UnloadClears = TRUE CandInit = {TRUE, FALSE} CloseWays = {"closeR", "remove"} ReasonDecides = FALSE ReadyInit = FALSE Expiry = FALSE
 PROPERTY ImplRefinesAbs
